@@ -132,11 +132,12 @@ L2ImpliesL1 ==
 
 (* every kind is reachable from the root, so every rule has a subject at some location *)
 ASSUME ReachTab[8] = Kinds
-ASSUME \A i, j \in 1..NOptSets : i # j => OptSet(i) # OptSet(j)
+ASSUME \A i, j \in 1..NOptSets : i # j => OptSeq(i) # OptSeq(j)
+ASSUME \A i \in 1..NSubsets : OptSet(i) = SeqRange(OptSeq(i))
 
 (*--------------------------------- F -------------------------------------*)
-(* the option sets, once: line i = OptSet(i) as a list of option names *)
-OptList(i) == LET s == OptSet(i) IN [j \in 1..Len(SelectSeq(OptOrder, LAMBDA o : o \in s)) |-> SelectSeq(OptOrder, LAMBDA o : o \in s)[j]]
+(* the option sequences, once: line i = OptSeq(i) as a list of option names, applied in that order *)
+OptList(i) == OptSeq(i)
 EmitOpts == (path = <<>> /\ leaf = Open) =>
                \A i \in 1..NOptSets : CSVWrite("%1$s", <<ToJson([i |-> i, opts |-> OptList(i)])>>, "opts.ndjson")
 =============================================================================
